@@ -37,8 +37,8 @@ table says so; waves 6, 8, 9, 10 and 11 were run blind):
 
 Now {caught} of {nseed} are caught by the quick tier within its normal budget ({byother} of them by the check of the property
 whose quantifier they really belong to — a fault sequence is C15's, a shared-object schedule is C19's; see the table);
-not caught: {", ".join(missed) if missed else "none"} (C15-w2-3 and C15-w9-3 are accepted as outside the stated properties; the two
-wave-11 entries are open misses, see the last bullet of the list below; C03-w6-2 was retired — fix e926725 made it harmless — and
+not caught: {", ".join(missed) if missed else "none"} (C15-w2-3 and C15-w9-3 are accepted as outside the stated properties; the
+wave-11 entry C09-w11-3 is an open miss, see the last bullet of the list below; C03-w6-2 was retired — fix e926725 made it harmless — and
 lives under `seeded/retired/`).
 "first" = verdict when the wave came back, "now" = current verdict. The {nben} behaviour-preserving edits under `/verif/benign`
 (twelve written by me, {nben - 12} large restructurings by independent sub-agents who were asked for correct caches, locks, pools,
